@@ -516,7 +516,27 @@ func c18hookfail(iv int) string {
 // Connect again ... Every session is a STARTTLS session against a scripted server that counts the white space it
 // receives inside TLS. "While a session is up the client writes a whitespace keepalive at the configured interval" -
 // in every session of the client, not only in its first one.
-func c18lives(intervalMs, lives int) string {
+// c18cfgInterval: the interval the client will use is the one the application configured, whatever the transport:
+// NewClient fills in a default (30 s) only where none was given.
+func c18cfgInterval(scheme string, ms int) string {
+	addr := "127.0.0.1:1"
+	if scheme != "tcp" {
+		addr = scheme + "://127.0.0.1:1/"
+	}
+	cfg := &xmpp.Config{TransportConfiguration: xmpp.TransportConfiguration{Address: addr, Domain: "localhost"},
+		Jid: "u@localhost/r", Credential: xmpp.Password("p"), KeepaliveInterval: time.Duration(ms) * time.Millisecond}
+	if _, err := xmpp.NewClient(cfg, xmpp.NewRouter(), func(error) {}); err != nil {
+		return "newclient-failed"
+	}
+	return fmt.Sprintf("interval=%d", cfg.KeepaliveInterval.Milliseconds())
+}
+
+func c18lives(intervalMs, lives int) string { return c18livesEnd(intervalMs, lives, false) }
+
+// c18livesEnd with serverEnds: every session is ended by the SERVER (</stream:stream>), the application does what
+// the StreamManager does (Resume on the Disconnected event) and never calls Disconnect in between: every end of a
+// session is reported (one Disconnected event per life), so that the keepalive of that session stops.
+func c18livesEnd(intervalMs, lives int, serverEnds bool) string {
 	ln, err := net.Listen("tcp", "127.0.0.1:0")
 	if err != nil {
 		return "listen-failed"
@@ -531,9 +551,26 @@ func c18lives(intervalMs, lives int) string {
 	if err != nil {
 		return "newclient-failed"
 	}
+	var dmu sync.Mutex
+	disc := 0
+	client.SetHandler(func(e xmpp.Event) error {
+		if xmpp.VerifEventState(e) == xmpp.StateDisconnected {
+			dmu.Lock()
+			disc++
+			dmu.Unlock()
+		}
+		return nil
+	})
 	out := fmt.Sprintf("lives=%d", lives)
 	for l := 1; l <= lives; l++ {
 		sv := &negServer{m: happy(true, false, false)}
+		var cmu sync.Mutex
+		var srvConn net.Conn
+		sv.after = func(kind string, conn net.Conn) {
+			cmu.Lock()
+			srvConn = conn
+			cmu.Unlock()
+		}
 		srvDone := make(chan struct{})
 		go func() {
 			defer close(srvDone)
@@ -550,6 +587,10 @@ func c18lives(intervalMs, lives int) string {
 					cerr <- fmt.Errorf("panic: %v", r)
 				}
 			}()
+			if serverEnds && l > 1 {
+				cerr <- client.Resume()
+				return
+			}
 			cerr <- client.Connect()
 		}()
 		select {
@@ -563,12 +604,35 @@ func c18lives(intervalMs, lives int) string {
 		}
 		t0 := time.Now()
 		time.Sleep(time.Duration(6*intervalMs) * time.Millisecond)
-		dd := make(chan struct{})
-		go func() { defer close(dd); defer func() { recover() }(); client.Disconnect() }()
-		select {
-		case <-dd:
-		case <-time.After(5 * time.Second):
-			return out + fmt.Sprintf(" disconnect%d=hang", l)
+		if serverEnds {
+			cmu.Lock()
+			sc := srvConn
+			cmu.Unlock()
+			if sc == nil {
+				return out + fmt.Sprintf(" noconn%d", l)
+			}
+			sc.Write([]byte("</stream:stream>"))
+			// the end of the session is reported: wait for the l-th Disconnected event
+			for dl := time.Now().Add(2 * time.Second); time.Now().Before(dl); time.Sleep(time.Millisecond) {
+				dmu.Lock()
+				d := disc
+				dmu.Unlock()
+				if d >= l {
+					break
+				}
+			}
+			dmu.Lock()
+			out += fmt.Sprintf(" d%d=%d", l, disc)
+			dmu.Unlock()
+			sc.Close()
+		} else {
+			dd := make(chan struct{})
+			go func() { defer close(dd); defer func() { recover() }(); client.Disconnect() }()
+			select {
+			case <-dd:
+			case <-time.After(5 * time.Second):
+				return out + fmt.Sprintf(" disconnect%d=hang", l)
+			}
 		}
 		select {
 		case <-srvDone:
@@ -618,14 +682,19 @@ func (c18) Exec(c Case) []string {
 			}(i)
 			continue
 		}
-		if op[0] == "lives" && len(op) == 3 {
+		if (op[0] == "lives" || op[0] == "liveserver") && len(op) == 3 {
 			iv, _ := strconv.Atoi(op[1])
 			nl, _ := strconv.Atoi(op[2])
 			wg.Add(1)
-			go func(i int) {
+			go func(i int, srvEnds bool) {
 				defer wg.Done()
-				obs[i] = c18lives(iv, nl)
-			}(i)
+				obs[i] = c18livesEnd(iv, nl, srvEnds)
+			}(i, op[0] == "liveserver")
+			continue
+		}
+		if op[0] == "cfginterval" && len(op) == 3 {
+			ms, _ := strconv.Atoi(op[2])
+			obs[i] = c18cfgInterval(op[1], ms)
 			continue
 		}
 		if op[0] == "hookfail" && len(op) == 2 {
@@ -719,6 +788,14 @@ func (c18) Generate(rng *rand.Rand, tier string, st *Stats) []Case {
 		// several sessions of one client, each with its keepalives (once per batch)
 		ops = append(ops, []string{"lives", strconv.Itoa([]int{15, 25, 40}[b%3]), strconv.Itoa(2 + b%2)})
 		st.Inc("sessions_of_one_client")
+		// the same with sessions that the SERVER ends (</stream:stream>), the application resuming as the StreamManager does
+		ops = append(ops, []string{"liveserver", strconv.Itoa([]int{15, 25, 40}[(b+1)%3]), strconv.Itoa(3 - b%2)})
+		st.Inc("sessions_ended_by_the_server")
+		// the interval the client uses is the configured one, on every transport
+		for _, sch := range []string{"tcp", "ws", "wss"} {
+			ops = append(ops, []string{"cfginterval", sch, strconv.Itoa([]int{0, 40, 1000, 4999, 5000, 30000, 60000}[(b+len(sch))%7])})
+			st.Inc("configured_interval")
+		}
 		// a Resume whose post-resume hook fails leaves no keepalive behind
 		ops = append(ops, []string{"hookfail", strconv.Itoa([]int{4, 7, 12}[b%3])})
 		st.Inc("resume_hook_fails")
